@@ -79,12 +79,12 @@ CHECKS = {
   design="7/C17"),
  "C18": dict(
   technique="black-box differential monitor on the real server binary over loopback: each HTTP response versus the in-process library call with exactly the request's parameters and versus the independent reference model (thorough: also a -race build of the server)",
-  text="The server is built from the working tree and driven with generated well-formed requests to all ten endpoints (every optional field present/absent at random, known and unknown digit/hash spellings, raw and structured suites, white space around secrets, fields of up to ~100 KiB giving large responses) from 1..32 client goroutines on reused and fresh connections; codes, verdicts, echoes, suite list/description, URL and secret responses are compared with the library and the reference; generated codes are fed back to the validate endpoints; 2..16 requests are pipelined on one connection and judged in order; 6000..60000 requests with secrets never seen before in one server process, with secrets from the start coming back after 10..50000 others; identical requests without a timestamp repeated as the clock moves on (periods 1 and 2 s), each verdict bracketed by the instants of its exchange; at both ends of the 64-bit counter range the validate verdict is judged against the library alone; 'timestamp omitted' is bracketed by the client's clock around the timestamp the server reports.",
+  text="The server is built from the working tree and driven with generated well-formed requests to all ten endpoints (every optional field present/absent at random, known and unknown digit/hash spellings, raw and structured suites, white space around secrets, fields of up to ~100 KiB giving large responses) from 1..32 client goroutines on reused and fresh connections; codes, verdicts, echoes, suite list/description, URL and secret responses are compared with the library and the reference; generated codes are fed back to the validate endpoints; 2..16 requests are pipelined on one connection and judged in order; a share of the requests is sent in another lexical form of the same JSON text (string escapes, white space between tokens) and must be answered like the plain form; 6000..60000 requests with secrets never seen before in one server process, with secrets from the start coming back after 10..50000 others; identical requests without a timestamp repeated as the clock moves on (periods 1 and 2 s), each verdict bracketed by the instants of its exchange; at both ends of the 64-bit counter range the validate verdict is judged against the library alone; 'timestamp omitted' is bracketed by the client's clock around the timestamp the server reports.",
   note="Trusted: Go net/http client, reference models. The clock is only read to bracket the server-reported timestamp; no latency verdicts.",
   design="7/C18"),
  "C19": dict(
   technique="black-box hostile-input monitor on the real server binary with per-request CPU accounting (/proc/<pid>/stat) and interleaved reference-checked probe requests; liveness restated as bounded progress",
-  text="A seeded shuffle of hostile requests (broken JSON, every field x every JSON type, numbers beyond 64-bit limits, skew/period extremes, unknown/contradictory suites, oversized bodies, large echoed fields, every method x path, raw TCP fragments) is sent sequentially (server CPU time attributed per request: > 2 CPU-s is a violation) and on 32 connections; every response must be complete, 2xx only with the endpoint's success object; refused skews must not accept; probes judged by the C18 oracle (including large-response probes in flight with the hostile traffic) must stay correct; for ten request classes four equal batches are sent and the server's resident memory (/proc/<pid>/status) is read after each: steady growth per batch is a violation (something kept per request for good); a well-formed request left unanswered twice while GET / answers is a violation; 27 request-header names with ~70 hostile values each are sent one at a time under CPU accounting (on API paths with a well-formed body whose 200 must be the library's answer); on a server of its own: twenty kinds of refused or failed first request each followed, if the connection stays open, by a well-formed request on the same connection (C18 oracle), 64..400 uploads announced and abandoned half-way, and clients that stall beyond the read timeout, each followed by probes; the documentation assets are requested concurrently under eight Accept-Encoding values (rounds meeting an expired compressed-file cache; freshly started servers asked by one client alone and by 40 clients with the same first request; concurrent byte ranges) and every body, decoded by the coding its own Content-Encoding names, must equal the bytes served for identity; thorough repeats those rounds on a -race build and reads its log (races whose accesses are the module's are violations, races inside dependencies are recorded); the process must stay alive. Unbounded 'eventually' is not decidable by a run; a timeout with an idle server is inconclusive.",
+  text="A seeded shuffle of hostile requests (broken JSON, every field x every JSON type, numbers beyond 64-bit limits, skew/period extremes, unknown/contradictory suites, oversized bodies, large echoed fields, every method x path, raw TCP fragments) is sent sequentially (server CPU time attributed per request: > 2 CPU-s is a violation) and on 32 connections; every response must be complete, 2xx only with the endpoint's success object; refused skews must not accept; probes judged by the C18 oracle (including large-response probes in flight with the hostile traffic) must stay correct; for ten request classes four equal batches are sent and the server's resident memory (/proc/<pid>/status) is read after each: steady growth per batch is a violation (something kept per request for good); a well-formed request left unanswered twice while GET / answers is a violation; text of n copies of a 1..4-byte character (n around 64, 86, 128, 256, 342, 512, 1024) is sent as path, query and in every string field; 27 request-header names with ~70 hostile values each are sent one at a time under CPU accounting (on API paths with a well-formed body whose 200 must be the library's answer); on a server of its own: twenty kinds of refused or failed first request each followed, if the connection stays open, by a well-formed request on the same connection (C18 oracle), 64..400 uploads announced and abandoned half-way, and clients that stall beyond the read timeout, each followed by probes; the documentation assets are requested concurrently under eight Accept-Encoding values (rounds meeting an expired compressed-file cache; freshly started servers asked by one client alone and by 40 clients with the same first request; concurrent byte ranges) and every body, decoded by the coding its own Content-Encoding names, must equal the bytes served for identity; thorough repeats those rounds on a -race build and reads its log (races whose accesses are the module's are violations, races inside dependencies are recorded); the process must stay alive. Unbounded 'eventually' is not decidable by a run; a timeout with an idle server is inconclusive.",
   note="Trusted: Linux /proc CPU accounting (100 Hz ticks), Go net/http client. Work is measured in CPU time, not latency, so machine load cannot raise an alarm.",
   design="7/C19"),
  "C20": dict(
